@@ -103,7 +103,8 @@ func RunTLC(o TLCOpts, onCase func(json.RawMessage)) (*TLCResult, error) {
 		gcThreads = 2
 	}
 	// many parallel GC threads cost minutes of system time on this machine for allocation-heavy specs
-	args := []string{"-XX:+UseParallelGC", fmt.Sprintf("-XX:ParallelGCThreads=%d", gcThreads), "-Xmx" + o.Xmx, "-Xss" + o.Xss}
+	// (java.io.tmpdir: TLC creates a scratch directory of its own per run and leaves it behind)
+	args := []string{"-XX:+UseParallelGC", fmt.Sprintf("-XX:ParallelGCThreads=%d", gcThreads), "-Xmx" + o.Xmx, "-Xss" + o.Xss, "-Djava.io.tmpdir=" + tmp}
 	if o.DFS {
 		args = append(args, "-Dtlc2.tool.queue.IStateQueue=StateDeque")
 	}
